@@ -209,9 +209,29 @@ def one(emit, cid, clf, rng, sample):
                 cert, per, ib = prob.cert_subdiff(ck)
                 if not icpt and bk != 0:
                     viols.append(dict(common, mechanism="non-zero-intercept-without-fit_intercept", row=k, detail=str(bk)))
-            n_conv += 1
             slack = 1e-10 * (1 + float(np.max(np.abs(prob.gradient(dual if "SVC" in clf else ck)))))
-            if not R.leq(cert, 5 * tol + slack, rel=0.0):     # per-class fits stop at tol; 5x margin for n_iter-limited rows
+            if K > 2:
+                # the separately fitted binary model "class k vs rest" (same hyper-parameters, same deterministic
+                # solver) must coincide with row k, whether or not the budget sufficed to converge
+                bin_est = build(clf, alpha, Cc, icpt, tol)
+                with warnings.catch_warnings():
+                    warnings.simplefilter("ignore")
+                    bin_est.fit(Xin, ypm)
+                cb = np.ravel(bin_est.coef_)
+                bb = float(np.ravel(np.atleast_1d(bin_est.intercept_))[0])
+                sc = 1e-8 * (1 + float(np.max(np.abs(cb))))
+                if not (np.allclose(coef[k], cb, rtol=1e-8, atol=sc) and abs(bk - bb) <= 1e-8 * (1 + abs(bb))):
+                    viols.append(dict(common, mechanism="ovr-row-differs-from-separately-fitted-binary-model", row=k,
+                                      detail="row %d: max coef diff %.3g, intercept %r vs %r" % (
+                                          k, float(np.max(np.abs(coef[k] - cb))), bk, bb)))
+                    break
+                converged = getattr(bin_est, "stop_crit_", np.inf) <= tol
+            else:
+                converged = getattr(est, "stop_crit_", np.inf) <= tol
+            if not converged:
+                continue
+            n_conv += 1
+            if not R.leq(cert, tol * (1 + 1e-6) + slack, rel=0.0):
                 viols.append(dict(common, mechanism="ovr-row-is-not-the-binary-model-of-its-class", row=k, cert=cert,
                                   component="intercept" if ib >= cert * 0.999 and ib > 0 else "coefficients",
                                   detail="row %d (class %s): violation of the binary one-vs-rest problem = %.3g (tol %g)" % (
